@@ -1,6 +1,7 @@
 package props
 
 import (
+	"fmt"
 	"math/rand/v2"
 	"time"
 
@@ -19,6 +20,7 @@ func (C01) Rule() string {
 		"(plus an unversioned and a second-repo distractor, optional clean/kill restarts, randomised map-iteration seed), executed against the real server; " +
 		"after the history (and at random points) every (key, version) is read by GET and HEAD and compared with the reference resolver " +
 		"(maximal entries among ancestors-or-self; none live=404, one=value, >=2 = must not succeed). " +
+		"a fifth of the runs open with a stacked lineage (one key written or deleted at 3-5 successive versions, side branches off inner nodes, merge of all tips in random parent order); " +
 		"non-trivial = the DAG has a merge or a branch and at least one delete; distinct = distinct hash of (steps, decision sequence, fired faults)"
 }
 func (C01) Assumptions() []string { return commonAssumptions }
@@ -27,7 +29,7 @@ func (C01) Budget(tier string) (int, time.Duration) {
 }
 
 func (C01) Generate(r *rand.Rand, tier string, idx int) *drv.Scenario {
-	fam := []string{"chain", "branchy", "mergey", "mergey"}[r.IntN(4)]
+	fam := []string{"chain", "branchy", "mergey", "mergey", "stacked"}[r.IntN(5)]
 	o := KVGenOpts{
 		MaxVersions: 4 + r.IntN(9),
 		Keys:        []string{"a", "b", "c", "ab", "k5"}[:3+r.IntN(3)],
@@ -46,6 +48,11 @@ func (C01) Generate(r *rand.Rand, tier string, idx int) *drv.Scenario {
 		if o.MaxVersions < 7 {
 			o.MaxVersions = 7
 		}
+	}
+	if fam == "stacked" {
+		o.MergeBias = 6
+		o.MaxVersions = 10 + r.IntN(5)
+		o.Prelude = stackedPrelude
 	}
 	g := GenKVHistory(r, o)
 	return &drv.Scenario{Family: fam, Knobs: baseKnobs(r), Steps: g.Steps, Fixed: g.Fixed}
@@ -95,4 +102,59 @@ func (C01) NonTrivial(sc *drv.Scenario, st *drv.RunStats) bool {
 		}
 	}
 	return structural && del
+}
+
+// stackedPrelude: one lineage that writes or deletes the same key at 3-5 successive versions,
+// 1-2 side branches hanging off inner nodes of that lineage that never touch the key, and a
+// merge of the lineage's tip with the side tips in a random parent order (supersession must be
+// propagated through every stacked entry, not only the nearest one); the random history follows.
+func stackedPrelude(g *KVGen) {
+	r := g.R
+	k := g.O.Keys[0]
+	inst := g.O.Inst
+	emitWrite := func(v int, allowDel bool) {
+		if allowDel && r.IntN(3) == 0 {
+			g.Steps = append(g.Steps, drv.Op{Op: "del", V: v, I: inst, K: k})
+		} else {
+			g.Steps = append(g.Steps, drv.Op{Op: "put", V: v, I: inst, K: k, Val: g.NewVal()})
+		}
+	}
+	commit := func(v int) {
+		g.D.Nodes[v].Locked = true
+		g.Steps = append(g.Steps, drv.Op{Op: "commit", V: v})
+	}
+	chain := []int{0}
+	emitWrite(0, false)
+	commit(0)
+	L := 2 + r.IntN(3)
+	for i := 0; i < L; i++ {
+		p := chain[len(chain)-1]
+		idx := g.D.NextIdx()
+		g.D.Add(idx, VUUID(idx), []int{p}, g.D.Nodes[p].Branch, 0)
+		g.Steps = append(g.Steps, drv.Op{Op: "newver", V: p, N: int64(idx)})
+		if i == L-1 || r.IntN(5) != 0 {
+			emitWrite(idx, true)
+		}
+		commit(idx)
+		chain = append(chain, idx)
+	}
+	ps := []int{chain[len(chain)-1]}
+	for s := 0; s < 1+r.IntN(2); s++ {
+		p := chain[r.IntN(len(chain)-1)]
+		g.brCtr++
+		idx := g.D.NextIdx()
+		name := fmt.Sprintf("br%d", g.brCtr)
+		g.D.Add(idx, VUUID(idx), []int{p}, name, 0)
+		g.Steps = append(g.Steps, drv.Op{Op: "branch", V: p, Br: name, N: int64(idx)})
+		if len(g.O.Keys) > 1 && r.IntN(2) == 0 {
+			g.Steps = append(g.Steps, drv.Op{Op: "put", V: idx, I: inst, K: g.O.Keys[1], Val: g.NewVal()})
+		}
+		commit(idx)
+		ps = append(ps, idx)
+	}
+	r.Shuffle(len(ps), func(i, j int) { ps[i], ps[j] = ps[j], ps[i] })
+	idx := g.D.NextIdx()
+	g.D.Add(idx, "", ps, "", 0)
+	g.Steps = append(g.Steps, drv.Op{Op: "merge", Ps: ps, N: int64(idx)})
+	g.Steps = append(g.Steps, drv.Op{Op: "check"})
 }
